@@ -31,9 +31,12 @@ def run(ctx):
     ctx.run("C07.KW", "R-ORDER", c07.kw)
     ctx.run("C07.METHOD", "R-ORDER", c07.method)
     ctx.run("C07.IGNORE", "R-ORDER", c07.ignore)
+    ctx.run("C07.NO-FORMAT", "R-WHO", c07.no_format_on_success)
     ctx.run("C08.PURE", "R-WHO", c08.pure)
     ctx.run("C08.UNORDERED", "R-TABLE", c08.unordered)
     ctx.run("C08.SEED", "R-WHO", c08.seed)
     ctx.run("C08.MEMO", "R-ORDER", c08.memo)
     ctx.run("C08.FEED-TOTAL", "R-FLOW", c08.feed_total)
     ctx.run("C12.GETSTATE", "R-WHO", mem.getstate_pure)
+    ctx.run("C06.EXPIRES", "R-ARITH", mem.expires)
+    ctx.run("C05.META-DUAL", "R-DUAL", mem.meta_dual)
